@@ -565,12 +565,18 @@ ASMJIT_FAVOR_SIZE Error FormatterInternal::format_operand(
       }
     }
 
-    if (m.has_shift()) {
+    // An extend of the index is a part of the operand even when its amount is zero - `[x1, w2 sxtw]` and `[x1, w2 uxtw]`
+    // are different addresses, only a plain `lsl` with zero amount can be omitted.
+    bool has_extend = m.has_index() && !m.is_pre_or_post() && m.shift_op() != ShiftOp::kLSL;
+
+    if (m.has_shift() || has_extend) {
       ASMJIT_PROPAGATE(sb.append(' '));
       if (!m.is_pre_or_post()) {
         ASMJIT_PROPAGATE(format_shift_op(sb, m.shift_op()));
       }
-      ASMJIT_PROPAGATE(sb.append_format(" %u", m.shift()));
+      if (m.has_shift()) {
+        ASMJIT_PROPAGATE(sb.append_format(" %u", m.shift()));
+      }
     }
 
     if (!m.is_post_index()) {
